@@ -105,3 +105,38 @@ Example C05_example :
   is_ok (reduce_step [(bs "k1", a); (bs "k2", b); (bs "k3", c)]) = false /\
   is_ok (reduce_step [(bs "k3", c); (bs "k1", a); (bs "k2", b)]) = false.
 Proof. vm_compute. repeat split. Qed.
+
+(* ---- composed with the threshold model (C02) ----
+   in an accepting run of the pipeline with the component models plugged in, the link on which the rules of a
+   step are evaluated stems from an entry of the counted map for that step: either it IS a counted link - loaded
+   from a listed file of that step and authorised by the key route or the certificate route - or it is the summary
+   of a counted, authorised sublayout. A link that was loaded but not counted can never supply the artifacts. *)
+From IT Require Import model.PipelineInst spec.ThresholdSpec proofs.PipelineThreshold model.Subst proofs.SubstProofs.
+
+Theorem C05_rules_link_is_authorised :
+  forall now truths tc tcc cmds fuel w path d layout_env keys step_name params inter s w' tr,
+    verify_inst now truths tc tcc cmds (S fuel) w path d layout_env keys step_name params inter = (Ok s, w', tr) ->
+    exists layout rl,
+      verify_artifacts_go (map step_item (l_steps layout)) rl = Ok tt /\
+      forall n lk, alookup rl n = Some lk ->
+        exists st kid e e',
+          In st (l_steps layout) /\ s_name st = n /\ env_link e' = Ok lk /\
+          In (kid, e) (load_name n (ld_files d)) /\
+          (authorised_key (vsig_tbl truths) layout st kid e \/
+           authorised_cert (vsig_tbl truths) (tbl_get_cert tc) (cc_tbl tcc) st kid e) /\
+          ((e' = e /\ env_is_layout e = false) \/ env_is_layout e = true).
+Proof.
+  intros now truths tc tcc cmds fuel w path d layout_env keys step_name params inter s w' tr H.
+  unfold verify_inst in H. pose proof H as H0. apply verify_ok_inv in H0.
+  destruct H0 as [l0 l loaded verified resolved reduced rl imeta w2 tr2 Hs Hp He Hsu Hc Hl Ht Hss Hal Hred Hel Hr1].
+  exists l, rl. split; [exact Hr1|].
+  intros n lk Hlk. destruct (env_links_lookup _ _ _ _ Hel Hlk) as [e' [He1 He2]].
+  destruct (reduce_steps_from_resolved world (vsig_tbl truths) (fun s0 => is_ok (Expiry.verify_expiration now s0))
+              (run_insp_tbl cmds) zero_key _ _ _ Hred n e' He1) as [links' [Hm [k Hin]]].
+  apply alookup_some_in in Hm.
+  destruct (subs_rel_entry _ _ _ _ _ _ _ _ _ _ _ (sub_steps_ok _ _ _ _ _ _ _ _ _ _ _ _ _ Hss) n links' k e' Hm Hin)
+    as [links [e [H1 [H2 H3]]]].
+  destruct (verified_entry_is_authorised _ _ _ _ _ _ _ _ _ _ _ Hl Ht H1 H2) as [st [Hst [Hn [Hld Hauth]]]].
+  exists st, k, e, e'. auto 10.
+Qed.
+Print Assumptions C05_rules_link_is_authorised.
